@@ -8,6 +8,7 @@ import XpDriver.C06
 import XpDriver.C12
 import XpDriver.C13
 import XpDriver.C19
+import XpDriver.C07
 open Lean Xp Xp.Proto
 
 def dispatch (op : String) (j : Json) : R Json :=
@@ -27,6 +28,11 @@ def dispatch (op : String) (j : Json) : R Json :=
   | "obj_run" => Ops.objRun j
   | "obj_compile" => Ops.objCompile j
   | "to_valid" => Ops.toValidOp j
+  | "lime_data" => Ops.limeData j
+  | "lime_rows" => Ops.limeRows j
+  | "wls" => Ops.wls j
+  | "kshap_probs" => Ops.kshapProbs j
+  | "kshap_sample" => Ops.kshapSample j
   | _ => throw "bad-op"
 
 def step (line : String) : String :=
